@@ -20,6 +20,8 @@ pub enum Op {
     HandleInErr,
     Extend(u8),
     Checkpoint,
+    /// record a long run of single errors, alternately by push / handle / handle_in (no ceiling on what an accumulator holds)
+    PushMany(u16),
 }
 
 #[derive(Clone, Debug, Serialize, Deserialize, Hash, PartialEq, Eq)]
@@ -48,14 +50,15 @@ pub struct History {
 
 fn op() -> impl Strategy<Value = Op> {
     prop_oneof![
-        3 => Just(Op::Push),
-        1 => (2u8..4).prop_map(Op::PushBundle),
-        3 => any::<u16>().prop_map(Op::HandleOk),
-        2 => Just(Op::HandleErr),
-        2 => any::<u16>().prop_map(Op::HandleInOk),
-        2 => Just(Op::HandleInErr),
-        2 => (0u8..4).prop_map(Op::Extend),
-        3 => Just(Op::Checkpoint),
+        24 => Just(Op::Push),
+        8 => (2u8..4).prop_map(Op::PushBundle),
+        24 => any::<u16>().prop_map(Op::HandleOk),
+        16 => Just(Op::HandleErr),
+        16 => any::<u16>().prop_map(Op::HandleInOk),
+        16 => Just(Op::HandleInErr),
+        16 => (0u8..4).prop_map(Op::Extend),
+        24 => Just(Op::Checkpoint),
+        1 => (1000u16..1100).prop_map(Op::PushMany),
     ]
 }
 
@@ -92,6 +95,9 @@ pub fn history_from(d: &mut vmodel::dec::D) -> History {
     let okish = d.bool();
     let ops = (0..n)
         .map(|_| {
+            if !okish && d.ratio(1, 150) {
+                return Op::PushMany(1000 + d.below(100) as u16);
+            }
             let w: [usize; 8] = if okish { [1, 0, 6, 1, 4, 0, 3, 4] } else { [3, 1, 3, 2, 2, 2, 2, 3] };
             match d.weighted(&w) {
                 0 => Op::Push,
@@ -342,6 +348,25 @@ fn check_inner(ctx: &Ctx, h: &History) -> Result<(), Fail> {
                 if *k > 0 {
                     recording_ops += 1;
                 }
+            }
+            Op::PushMany(k) => {
+                for j in 0..*k {
+                    let (e, l, sp) = fresh(1, &mut next);
+                    match j % 3 {
+                        0 => acc!().push(e),
+                        1 => {
+                            let r = acc!().handle(Err::<u16, Error>(e));
+                            ensure!(r.is_none(), "c05:handle-err", "op {}: handle(Err) returned {:?}", i, r);
+                        }
+                        _ => {
+                            let r = acc!().handle_in(|| Err::<u16, Error>(e));
+                            ensure!(r.is_none(), "c05:handle-in-err", "op {}: handle_in(Err) returned {:?}", i, r);
+                        }
+                    }
+                    rec.push(l);
+                    rec_spans.push(sp);
+                }
+                recording_ops += 1;
             }
             Op::Checkpoint => {
                 checkpoints += 1;
@@ -643,7 +668,7 @@ fn regress_cases() -> Vec<History> {
 
 pub fn run(args: &Args) -> bool {
     let ctx = Ctx::new("C05", "histories", vmodel::ev::mix_seed(args.seed, "C05", "histories", args.shard), args);
-    ctx.set_rule("vec(op,0..24) over {push, push-bundle, handle Ok/Err, handle_in Ok/Err, extend(0..3), checkpoint} + terminal {finish, finish_with, into_inner, drop}, interpreted against (recorded list) model with uniquely labelled errors, two in three of them built with a source span, bundles (pushed, or handed to extend as one item) with a span of their own every other time: what comes back has the recorded labels in order, the recorded spans (own, else the enclosing recorded bundle's), and the accumulator's own bundle carries no span; drop-during-unwind probed in child processes. Non-trivial: >=3 recording ops and >=1 checkpoint, or an unwind probe; distinct by structural hash");
+    ctx.set_rule("vec(op,0..24) over {push, push-bundle, handle Ok/Err, handle_in Ok/Err, extend(0..3), checkpoint, a run of 1000-1100 single errors} + terminal {finish, finish_with, into_inner, drop}, interpreted against (recorded list) model with uniquely labelled errors, two in three of them built with a source span, bundles (pushed, or handed to extend as one item) with a span of their own every other time: what comes back has the recorded labels in order, the recorded spans (own, else the enclosing recorded bundle's), and the accumulator's own bundle carries no span; drop-during-unwind probed in child processes. Non-trivial: >=3 recording ops and >=1 checkpoint, or an unwind probe; distinct by structural hash");
     if let Some(path) = &args.replay {
         let (_, case) = vmodel::ev::load_replay_case(path);
         let h: History = serde_json::from_value(case).expect("bad replay case");
